@@ -161,19 +161,21 @@ fn ss_udp_case(s: &mut Session, rng: &mut Rng, cipher: &'static str, want_user: 
 }
 
 /// datagrams inside a byte stream (Trojan frames, VMess chunks): any number, any segmentation
-fn stream_udp_case(s: &mut Session, rng: &mut Rng, proto: &str, style: u64) {
-    s.begin_case(&format!("{}-udp:cut{}", proto, style));
+pub fn stream_udp_case(s: &mut Session, rng: &mut Rng, proto: &str, style: u64, ws: bool) {
+    s.begin_case(&format!("{}-udp{}:cut{}", proto, if ws { "-ws" } else { "" }, style));
+    let adapter = if ws { " adapter=ws" } else { "" };
     let (c, sv) = (s.fresh("c"), s.fresh("s"));
     let addr = random_addr(rng);
     if proto == "trojan" {
         s.run(&format!("tj.client {} password=pw cmd=udp addr={}", c, addr));
-        s.run(&format!("tj.server {} password=pw", sv));
+        s.run(&format!("tj.server {} password=pw{}", sv, adapter));
     } else {
         let uuid = random_uuid(rng);
         s.run(&format!("vm.client {} uuid={} cipher={} cmd=udp addr={}", c, uuid, if proto == "vmess-chacha" { "chacha20-poly1305" } else { "aes-128-gcm" }, addr));
-        s.run(&format!("vm.server {} users=a:{}", sv, uuid));
+        s.run(&format!("vm.server {} users=a:{}{}", sv, uuid, adapter));
     }
-    let n = rng.range(1, 5) as usize;
+    // behind the WebSocket adapter one message may carry many frames: at least four datagrams
+    let n = if ws { rng.range(4, 8) as usize } else { rng.range(1, 5) as usize };
     let mut wire = vec![];
     let mut sent: Vec<(String, Vec<u8>)> = vec![];
     for _ in 0..n {
@@ -212,6 +214,11 @@ fn stream_udp_case(s: &mut Session, rng: &mut Rng, proto: &str, style: u64) {
     }
     if got != sent {
         s.oracle_fail(&format!("{}-udp:boundaries", proto), &format!("{} datagrams sent, {} delivered or contents/addresses differ", sent.len(), got.len()));
+        return;
+    }
+    if ws {
+        // the adapter object of the harness only reads
+        s.mark_nontrivial();
         return;
     }
     // and back: server frames towards the client
@@ -280,7 +287,10 @@ pub fn generate(s: &mut Session, tier: &str, rng: &mut Rng) {
         }
         for proto in ["trojan", "vmess-aes", "vmess-chacha"] {
             for style in 0..5 {
-                stream_udp_case(s, rng, proto, style);
+                stream_udp_case(s, rng, proto, style, false);
+                if style == 0 || style == 3 {
+                    stream_udp_case(s, rng, proto, style, true);
+                }
             }
         }
         for cipher in ["aes-128-gcm", "chacha20-poly1305"] {
